@@ -7,7 +7,7 @@ VMM_ASSUME = ['simulated machine: physical memory = host pages (frame = host add
 
 PROP = {
     'pkg': K + '/mm/vmm',
-    'tests': [{'name': 'TestVerifC07', 'checks_quick': 40000, 'checks_thorough': 1000000}],
+    'tests': [{'name': 'TestVerifC07', 'checks_quick': 150000, 'checks_thorough': 5000000}],
     'rule': 'rapid generates sequences (<=40) of EarlyReserveRegion / MapRegion / IdentityMapRegion with sizes from '
             '{0,1,4095,4096,4097, k pages+tail, remaining-space +-{0,1,4095,4096,4097}, 2^62, 2^63, 2^64-4096..2^64-1, any '
             'uint64, large chunks that move the cursor near the bottom}; the map seam records (page, frame, flags) and can '
